@@ -67,14 +67,28 @@ class Explorer:
     self.cur = None
 
   def feasible(self, pc, extra):
+    """Over-approximate feasibility (unknown counts as feasible: sound for proving).
+    Stage 1 ignores quantified hypotheses (fast, still sound); stage 2 adds them
+    under a short timeout to prune more."""
+    qf = [c for c in pc if not _has_quantifier(c)]
     s = z3.Solver()
     s.set('timeout', self.branch_timeout_ms)
-    for c in pc:
+    for c in qf:
       s.add(c)
     s.add(extra)
     self.solver_calls += 1
     r = s.check()
-    return r != z3.unsat     # unknown counts as feasible (sound for proving)
+    if r == z3.unsat:
+      return False
+    if len(qf) == len(pc):
+      return True
+    s2 = z3.Solver()
+    s2.set('timeout', 400)
+    for c in pc:
+      s2.add(c)
+    s2.add(extra)
+    self.solver_calls += 1
+    return s2.check() != z3.unsat
 
   def branch(self, cond):
     """Decide a symbolic condition on the current path; returns a Python bool."""
@@ -101,7 +115,8 @@ class Explorer:
     elif f_ok:
       d = False
     else:
-      raise PathEnd()      # path condition itself infeasible
+      p.notes.append('DEAD')   # path condition itself infeasible: contradictory assumptions
+      raise PathEnd()
     p.dec.append(d)
     p.pos += 1
     p.pc.append(cond if d else z3.Not(cond))
@@ -130,14 +145,79 @@ class Explorer:
     return all_obls, infos
 
 
+_SK = [0]
+
+
+def _skolemize(goal):
+  """forall x. G  ->  (G[c], [c]) for a fresh constant c; also under an implication
+  and for each conjunct. Sound for proving: G[c] for arbitrary c is the same claim."""
+  consts = []
+
+  def sk(g):
+    if z3.is_quantifier(g) and g.is_forall():
+      cs = []
+      for i in range(g.num_vars()):
+        _SK[0] += 1
+        cs.append(z3.Const(f'sk!{g.var_name(i)}!{_SK[0]}', g.var_sort(i)))
+      consts.extend(cs)
+      return sk(z3.substitute_vars(g.body(), *reversed(cs)))
+    if z3.is_implies(g):
+      return z3.Implies(g.arg(0), sk(g.arg(1)))
+    if z3.is_and(g):
+      return z3.And([sk(x) for x in g.children()])
+    return g
+  return sk(goal), consts
+
+
+def _instances(pc, consts, extra_terms=()):
+  """Instantiates universally quantified hypotheses at the goal's skolem constants
+  (a deterministic substitute for E-matching; the quantified facts are kept too)."""
+  out = []
+  terms = list(consts) + list(extra_terms)
+  if not terms:
+    return out
+  for h in pc:
+    hs = h.children() if z3.is_and(h) else [h]
+    for q in hs:
+      if z3.is_quantifier(q) and q.is_forall() and q.num_vars() == 1:
+        for c in terms:
+          if c.sort() == q.var_sort(0):
+            out.append(z3.substitute_vars(q.body(), c))
+  return out
+
+
+_QCACHE = {}
+
+
+def _has_quantifier(e):
+  k = e.get_id()
+  if k in _QCACHE:
+    return _QCACHE[k]
+  seen, todo, res = set(), [e], False
+  while todo:
+    x = todo.pop()
+    if x.get_id() in seen:
+      continue
+    seen.add(x.get_id())
+    if z3.is_quantifier(x):
+      res = True
+      break
+    todo.extend(x.children())
+  _QCACHE[k] = res
+  return res
+
+
 def discharge(obl, timeout_ms=20000, want_model=True):
   """Proves pc => goal by refuting pc /\\ not goal."""
   t0 = time.time()
   s = z3.Solver()
   s.set('timeout', timeout_ms)
+  goal, consts = _skolemize(obl.goal)
   for c in obl.pc:
     s.add(c)
-  s.add(z3.Not(obl.goal))
+  for c in _instances(obl.pc, consts):
+    s.add(c)
+  s.add(z3.Not(goal))
   r = s.check()
   obl.backend = 'z3'
   if r == z3.unknown:
